@@ -181,6 +181,15 @@ def build_wall_case(c):
         poly = rect(4.0, 3.0) if c["tilt"] != "BOTTOM" else [[0.0, 0.0], [4.0, 0.0], [4.0, -3.0], [0.0, -3.0]]
         test = wall("TEST", c["bounds"], "T", s1, tilt, [0.0, 5.0, 0.0], poly, 0.0, nxt)
         walls.append(test)
+        if c.get("glazed"):
+            # the exterior wall of each space carries a window of 2 m2 with U = 3 (all glass, no increment)
+            wins = [{"id": uid("win-" + w["name"]), "name": "V" + w["name"], "cons": uid("wincons-ref"), "wall": w["id"],
+                     "geometry": {"position": [0.5, 0.5], "height": 1.0, "width": 2.0, "setback": 0.0}} for w in walls if w["name"] in ("E1", "E2")]
+            dbw = {"wallcons": cons, "materials": mats, "wincons": [{"id": uid("wincons-ref"), "name": "VREF", "glass": uid("glass-ref"), "frame": uid("frame-ref"),
+                                                                      "f_f": 0.0, "delta_u": 0.0, "c_100": 27.0}],
+                   "glasses": [{"id": uid("glass-ref"), "name": "GREF", "u_value": 3.0, "g_gln": 0.7}],
+                   "frames": [{"id": uid("frame-ref"), "name": "FREF", "u_value": 2.0, "absorptivity": 0.6}]}
+            return {"meta": meta, "spaces": spaces, "walls": walls, "windows": wins, "cons": dbw}
     return {"meta": meta, "spaces": spaces, "walls": walls, "cons": {"wallcons": cons, "materials": mats}}
 
 
